@@ -11,7 +11,8 @@ ID = "C19"
 COQ_REQUIRE = "C19.Run"
 SHARD = 120
 RULE = ("layouts of /sys/class/hwmon (0-4 chips x 0-5 temp/fan sensors, direct or device/ nesting, every subset of "
-        "input/max/crit/label/name present, absent or unreadable, non-numeric inputs and thresholds, negative and zero values), "
+        "input/max/crit/label/name present, absent, failing at open() (PermissionError) or opening fine and failing in read() with "
+        "EIO/ENXIO/ENODATA/ENODEV/EBUSY, non-numeric inputs and thresholds, negative and zero values), "
         "/sys/class/thermal (zones with 0-4 trip points), /sys/class/power_supply (0-3 batteries, alternative energy_/charge_ "
         "and power_/current_ names, capacity, status, AC0/AC adapters, missing directory), cpufreq policies (both nestings, "
         "offline CPUs, cpuinfo-sourced current frequency, both import-time implementations), /proc/cpuinfo (x86 blocks, ARM "
@@ -19,7 +20,7 @@ RULE = ("layouts of /sys/class/hwmon (0-4 chips x 0-5 temp/fan sensors, direct o
         "coretemp platform chips, mixed fan nesting, plus a raw stream of malformed file contents compared with the model only. A case is non-trivial when "
         "at least one sensor/battery/CPU/line exists; distinct = distinct canonical case hash.")
 TRUSTED = ["correspondence harness props/C19.py + props/_c19_gen.py + pv/ (fake /sys and /proc trees behind pv.shim, "
-           "PermissionError injection, os.sysconf patch, importlib.reload of psutil._pslinux to re-run the import-time "
+           "PermissionError injection at open(), file objects whose read()/readline()/iteration raise OSError(errno), os.sysconf patch, importlib.reload of psutil._pslinux to re-run the import-time "
            "choice of cpu_freq implementation)",
            "glob.glob, sorted(set(basenames)), numeric sort of cpufreq policies: computed by the harness, not modelled",
            "sysfs/procfs formats transcribed from the kernel ABI documents in coq/C19/Spec.v"]
@@ -30,10 +31,12 @@ ASSUMPTIONS = ["floats are modelled as exact rationals; the implementation's dou
                "control characters; numbers have fewer than 300 digits",
                "set-iteration order of thermal trip points is an oracle: generated zones carry at most one 'critical' and one "
                "'high' trip point, the theorem covers every order"]
-EXHAUSTIVE = {"quick": "all 3^4 present/absent/unreadable states of input,max,crit,label x name in {present,absent}, "
-                       "x {C,F} for one temperature sensor (324 layouts)",
-              "thorough": "all 3^4 x 3 (name) x {C,F} single-sensor layouts x 3 value classes (zero, positive, negative), "
-                          "all 3^3 single-fan layouts, all 2^6 x 3 battery file subsets"}
+EXHAUSTIVE = {"quick": "one temperature sensor: all 4^3 states (present / absent / open() fails / read() fails) of max,crit,label with a "
+                       "readable input, plus the 3 non-readable input states, x name in {present, absent, read() fails} x {C,F} "
+                       "(402 layouts); one fan: all 4^3 states of input,label,name; every file of every walker failing in read() "
+                       "with each of EIO, ENXIO, ENODATA, ENODEV, EBUSY, one at a time (125 layouts)",
+              "thorough": "all 4^4 x 4 (name) x {C,F} single-sensor layouts x 3 value classes (zero, positive, negative), "
+                          "all 4^3 single-fan layouts, all 2^6 x 3 battery file subsets, the 125 read-error layouts"}
 
 
 def gen_cases(rng, tier):
